@@ -489,7 +489,14 @@ var c14AddrPieces = []string{"a", "b1", "user", ".", "..", "@", "@", "x.org", "d
 	"BODY=8BITMIME", "NOTIFY=NEVER", "SMTPUTF8", ":", ",", "@r1,@r2:", "é", "ü", "用", "\\", "(c)", ";", "+", "=", "-", "_", "!", "%", "\t", "\"", "xn--bcher-kva.example", "bücher.example", "\u3000", "\u00a0", "\u0085", "\u2003"}
 
 func c14GenAddr(t *rapid.T, label string) string {
-	switch rapid.IntRange(0, 3).Draw(t, label+"_shape") {
+	switch rapid.IntRange(0, 4).Draw(t, label+"_shape") {
+	case 4:
+		// a mailbox, a closing bracket, and something that would be a valid
+		// ESMTP parameter if the path ended there
+		return rapid.SampledFrom([]string{"a@b", "user@x.org", "\"q s\"@d", ""}).Draw(t, label+"_base") + ">" +
+			rapid.SampledFrom([]string{"", " ", "  ", "\t"}).Draw(t, label+"_sep") +
+			rapid.SampledFrom([]string{"ENVID=x", "SIZE=1", "BODY=8BITMIME", "BODY=7BIT", "NOTIFY=NEVER", "NOTIFY=SUCCESS", "SMTPUTF8", "RET=HDRS", "ORCPT=rfc822;a@b", "AUTH=<>", "RRVS=2014-04-03T23:01:00Z"}).Draw(t, label+"_param") +
+			rapid.SampledFrom([]string{"", "", " <", "<"}).Draw(t, label+"_open")
 	case 0:
 		// local@domain from pieces
 		return c14Join(t, label+"_l", 1, 3) + "@" + c14Join(t, label+"_d", 1, 3)
@@ -710,11 +717,11 @@ func TestC14(t *testing.T) {
 	if !complete {
 		return
 	}
-	c14Sub.rapidCheck(t, pickTier(4000, 30000), c14Gen)
+	c14Sub.rapidCheck(t, pickTier(4000, 60000), c14Gen)
 	if t.Failed() {
 		return
 	}
-	c14Addr.rapidCheck(t, pickTier(4000, 30000), func(rt *rapid.T) c14AddrCase {
+	c14Addr.rapidCheck(t, pickTier(4000, 60000), func(rt *rapid.T) c14AddrCase {
 		c := c14AddrCase{ServerUTF8: rapid.Bool().Draw(rt, "server_utf8"), From: c14GenAddr(rt, "from"), To: c14GenAddr(rt, "to")}
 		c.ClientUTF8 = c.ServerUTF8 && rapid.Bool().Draw(rt, "client_utf8")
 		if rapid.IntRange(0, 2).Draw(rt, "via_sendmail") == 0 {
